@@ -233,6 +233,7 @@ func (c *Ctx) Finish(verifDir string) int {
 		"discharged":          disch,
 		"samples":             samples,
 		"instances_by_rule":   byRule,
+		"instances":           c.Obs,
 		"packages_analysed":   keys(c.Pkgs),
 		"functions_analysed":  keys(c.Fns),
 		"not_decided":         c.NotDecided,
